@@ -23,6 +23,10 @@ for d in sorted(glob.glob(os.path.join(ROOT, 'seeded', '*'))):
     if name.startswith('revert-'):
         meta['origin'] = 'reverse patch of a fix: commit of /repo (the pinned tree behaviour); written by me'
         meta['confirmed'] = 'the existing suite passed on the pinned tree by construction (132/133, the always-failing intersection::lt_123 aside)'
+    elif name.startswith('benign-'):
+        meta['origin'] = 'written by me: a change under which the properties hold at least as well as before (see description); MISSED = the check stays green, as it must'
+        if os.path.exists(os.path.join(d, 'meta.txt')):
+            meta['description'] = open(os.path.join(d, 'meta.txt')).read()
     elif name.startswith('mine-'):
         meta['origin'] = 'written by me to exercise a part of the machinery (see description)'
         meta['breaks_property'] = name.split('-')[1]
